@@ -23,6 +23,7 @@ theorem fact_translated_all :
       "duallane_DLValidateMemoDecorator_AnteHandle", "cosmoslane_CLRejectEthereumMsgsDecorator_AnteHandle",
       "cosmoslane_CLVestingMessagesAuthorizationDecorator_AnteHandle",
       "duallane_DLValidateBasicDecorator_AnteHandle", "keeper_msgServer_SubmitProofExternalOwnedAccount",
+      "duallane_DLSigVerificationDecorator_AnteHandle", "duallane_DLIncrementSequenceDecorator_AnteHandle",
       "indexer_TxIndexKey", "indexer_parseBlockNumberFromKey", "evmlane_ELValidateBasicEoaDecorator_AnteHandle",
       "evmlane_ELSetupExecutionDecorator_AnteHandle", "evmlane_ELEmitEventDecorator_AnteHandle"] := by
   decide +kernel
@@ -34,6 +35,7 @@ theorem fact_uninterpreted :
       "keeper_StateTransition_preCheck: codeHash!=(*ast.CompositeLit)",
       "duallane_DLValidateBasicDecorator_AnteHandle: object new_LatestSignerForChainID_01415ad1 = ethtypes.LatestSignerForChainID(vbd.ek.GetEip155ChainId(ctx).BigInt())",
       "keeper_msgServer_SubmitProofExternalOwnedAccount: object lit_vauthtypes_ProofExternalOwnedAccount_5084c998 = vauthtypes.ProofExternalOwnedAccount{Account: msg.Account, Hash: \"0x\"+hex.EncodeToString(crypto.Keccak256(*ast.ArrayType(vauthtypes.MessageToSign))), Signature: msg.Signature}",
+      "duallane_DLSigVerificationDecorator_AnteHandle: object new_LatestSignerForChainID_ced01bc1 = ethtypes.LatestSignerForChainID(chainID)",
       "evmlane_ELValidateBasicEoaDecorator_AnteHandle: object new_BytesToAddress_712e99b6 = common.BytesToAddress(from)",
       "evmlane_ELValidateBasicEoaDecorator_AnteHandle: call evmtypes.IsEmptyCodeHash(codeHash)"] := by
   decide +kernel
